@@ -10,7 +10,7 @@
     model cpython_import / cpython_importfrom         vs  the object CPython really bound in the executed scope
 direct: the path Griffe returns, evaluated as a dotted path by CPython (import the longest module prefix, getattr the rest), is the
     very object CPython bound the name to at that site; names CPython does not bind statically come back unchanged; nothing raises.
-    Failing sites are attributed to a known finding only by the extracted model's verdict (gap_class / gap_package / gap_local).
+    Failing sites are attributed to a known finding only by the extracted model's verdict (gap_class / gap_local).
 """
 from __future__ import annotations
 
@@ -27,8 +27,8 @@ ID = "C04"
 LEVEL_TEXT = ("Theorems for all chains of scopes and all names: Object.resolve/Function.resolve always end with a path justified by a member, "
               "import, __init__ parameter or enclosing definition on the parent chain, or with the caught NameResolutionError (only when nothing "
               "binds the name: unknown names/builtins come back unchanged); on every chain the visitor can build the result equals CPython's "
-              "scoping (class body, closed-over function scopes, module globals) unless the walk stops in an enclosing class body (F1) or a parent "
-              "package (F2), or the identifier is bound by the expression itself (F3) - each refuted by a computed witness that is replayed on the "
+              "scoping (class body, closed-over function scopes, module globals) unless the walk stops in an enclosing class body (F1) or the "
+              "identifier is bound by the expression itself (F3) - each refuted by a computed witness that is replayed on the "
               "code; relative_to_absolute equals importlib's _resolve_name for every level up to the package depth in __init__ and plain modules; "
               "import/from-import statements bind the same name to the same path as CPython; dotted chains canonicalise segment by segment from the "
               "resolved root. Model tied to the code by differential runs on generated packages (model vs Griffe vs CPython executing the package).")
@@ -813,7 +813,7 @@ def griffe_side(ctx, g, d):
             scope = node.parent
             impl = impl_resolve(scope, node.name)
             canon = node.canonical_path
-            m_res, m_tag, m_py, m_wf, m_canon, m_pycanon, g1, g2, g3 = mo
+            m_res, m_tag, m_py, m_wf, m_canon, m_pycanon, g1, g3 = mo
             if m_res != impl or m_canon != canon:
                 ctx.tie_failure("correspondence", "resolve/canonical(model) vs Object.resolve/ExprName.canonical_path",
                                 {"model": [m_res, m_canon], "impl": [impl, canon], "name": node.name, "scope": scope.path}, {"root": g.root, "files": g.files()})
@@ -823,13 +823,13 @@ def griffe_side(ctx, g, d):
             ctx.observe("scope_kind", scope.kind.value)
             ctx.observe("chain_length", len(q[1]))
             rec = {"name": node.name, "canon": canon, "full": expr.canonical_path if expr is not None else canon, "res": impl,
-                   "py": m_py, "pycanon": m_pycanon, "tag": m_tag, "gaps": [g1, g2, g3], "local": bool(q[3])}
+                   "py": m_py, "pycanon": m_pycanon, "tag": m_tag, "gaps": [g1, g3], "local": bool(q[3])}
             s["g"].append(rec)
             for p in (canon, rec["full"], m_pycanon):
                 paths.add(strip_param(p))
         elif what == "site-true":
             rec = s["g"][-1]
-            rec["py"], rec["pycanon"], rec["tag"], rec["gaps"] = mo[2], mo[5], mo[1], [mo[6], mo[7], mo[8]]
+            rec["py"], rec["pycanon"], rec["tag"], rec["gaps"] = mo[2], mo[5], mo[1], [mo[6], mo[7]]
             paths.add(mo[5])
         elif what == "site-attr":
             at = node
@@ -907,8 +907,8 @@ def compare_package(ctx, g, files, info, res):
             elif s["segs"] and "full" in r:
                 ctx.observe("chain_outcome", "cpython:" + r["full"][0])
             if not ok:
-                g1, g2, g3 = gi["gaps"]
-                fid = "C04-F1" if g1 else "C04-F2" if g2 else "C04-F3" if g3 else None
+                g1, g3 = gi["gaps"]
+                fid = "C04-F1" if g1 else "C04-F3" if g3 else None
                 ctx.observe("mismatch", fid or "UNEXPLAINED")
                 ctx.property_failure({**case_base, "site": {k: v for k, v in s.items() if k != "g"}},
                                      {"griffe": gi["canon"], "griffe_full": gi["full"], "griffe_as_object": got, "cpython": r, "model_tag": gi["tag"]}, finding=fid)
@@ -1038,7 +1038,7 @@ def justified(scope, name, path):
             return True
         if o.name == name and o.path == path and not o.is_module:
             return True
-        o = o.parent
+        o = None if o.is_module else o.parent
     return False
 
 
@@ -1185,7 +1185,31 @@ def witnesses(ctx):
             ctx.witness(f["id"], False)
 
 
+def replay_corpus(ctx):
+    """Minimised past findings that were repaired: they must now PASS."""
+    d = Path(__file__).resolve().parents[2] / "corpus" / "C04"
+    for f in sorted(d.glob("*.json")):
+        c = json.loads(f.read_text())
+        root = ctx.scratch / ("corpus_" + f.stem)
+        for rel, text in c["files"].items():
+            (root / rel).parent.mkdir(parents=True, exist_ok=True)
+            (root / rel).write_text(text)
+        try:
+            loader, pkg = load_package("pkg", root)
+            for path, attr, name in c["lookups"]:
+                names, attrs = [], []
+                walk_exprs(getattr(loader.modules_collection[path], attr), names, attrs)
+                got = [n.canonical_path for n in names if n.name == name]
+                ctx.case({"corpus": f.name, "lookup": [path, attr, name]}, True)
+                if not got or any(g != c["expect"] for g in got):
+                    ctx.property_failure({"corpus": f.name, "files": c["files"], "root": "pkg"}, {"griffe": got, "expected": c["expect"], "what": c["what"]})
+        except Exception as e:  # noqa: BLE001
+            ctx.property_failure({"corpus": f.name, "files": c["files"], "root": "pkg"}, {"griffe raised": type(e).__name__ + ": " + str(e)})
+        ctx.count("corpus_cases")
+
+
 def explore(ctx):
+    replay_corpus(ctx)
     witnesses(ctx)
     check_relative(ctx, ctx.budget(4, 5))
     batches = ctx.budget(8, 80)
@@ -1201,6 +1225,7 @@ def explore(ctx):
         sample = [["rel", 2, ["p", "s", "t"], True, ["x"], "n"], ["import", ["a", "b"], []], ["import", ["a", "b"], ["c"]],
                   ["from", ["p", "s"], True, "p.s", 1, [], "t", []], ["from", ["p", "s"], True, "p.s", 2, ["a"], "K", ["z"]],
                   ["resolve", [["class", "B", [["y", []]], []], ["class", "A", [["x", []], ["B", []]], []], ["module", "m", [["x", []], ["A", []]], []]], "x", False],
+                  ["resolve", [["module", "m", [["y", []]], []], ["module", "pkg", [["X", []], ["m", []]], []]], "X", False],
                   ["attr", [["module", "m", [["x", ["p.q"]]], []]], "x", ["a", "b"]]]
         ctx.cross_check_extraction(sample + getattr(ctx, "_xq", [])[:50])
 
@@ -1262,7 +1287,7 @@ def search(ctx):
 
 
 def py_gap(scope, name, local):
-    """Python mirror of gap_class / gap_package / gap_local (Model/C04_scope.v), used only when the model cannot be run."""
+    """Python mirror of gap_class / gap_local (Model/C04_scope.v), used only when the model cannot be run."""
     import griffe
     try:
         scope.resolve(name)
@@ -1270,16 +1295,15 @@ def py_gap(scope, name, local):
         return False
     if local:
         return True
-    o, inner, pastmod = scope, True, False
+    o, inner = scope, True
     while o is not None:
         is_param = o.kind.value == "function" and o.parent is not None and o.name == "__init__" and name in o.parameters
         if is_param or name in o.members:
-            return pastmod or (o.kind.value == "class" and not inner)
-        if o.parent is None:
+            return o.kind.value == "class" and not inner
+        if o.parent is None or o.is_module:
             return False
         if name == o.parent.name and not o.parent.is_module:
-            return pastmod or o.parent.parent is None or o.parent.parent.kind.value == "class"
-        pastmod = pastmod or o.is_module
+            return o.parent.parent is None or o.parent.parent.kind.value == "class"
         inner = False
         o = o.parent
     return False
